@@ -1013,7 +1013,29 @@ func (e *Env) lineBreaksAdvance(c *schema.Ctx) {
 					}
 					if as, ok := nd.(*ast.AssignStmt); ok && len(as.Lhs) == 1 && len(as.Rhs) == 1 && e.isRestorerField(info, as.Lhs[0], "lines") {
 						if sl, ok := ast.Unparen(as.Rhs[0]).(*ast.SliceExpr); ok && e.isRestorerField(info, sl.X, "lines") && sl.Low != nil && types.ExprString(sl.Low) == "1" && dropAt < 0 {
-							dropAt = k
+							// under exactly the condition that the second entry repeats the first
+							// (offset 0): conjuncts lines[1] == lines[0] (or == 0, or <=) and
+							// len(lines) > 1
+							if pc, okp := pathCond(c, flat, as); okp {
+								hasEq, others := false, true
+								for _, cj := range splitTopAnd(pc) {
+									cj = strings.TrimSpace(strings.TrimSuffix(strings.TrimPrefix(strings.TrimSpace(cj), "("), ")"))
+									switch cj {
+									case "r.lines[1] == r.lines[0]", "r.lines[0] == r.lines[1]", "r.lines[1] == 0", "r.lines[1] <= r.lines[0]", "r.lines[1] <= 0", "r.lines[0] >= r.lines[1]":
+										hasEq = true
+									case "len(r.lines) > 1", "len(r.lines) >= 2", "1 < len(r.lines)":
+									default:
+										// conditions on anything else (an earlier error return) do not
+										// matter; another condition on the line table does
+										if strings.Contains(cj, "lines") {
+											others = false
+										}
+									}
+								}
+								if hasEq && others {
+									dropAt = k
+								}
+							}
 						}
 					}
 					return true
